@@ -3,7 +3,7 @@
    encoding property of a sheet (cssstylesheet.py:386-414) and the @charset prefix test of the
    css codec (_codec3.py:152-164), over the constants regenerated into Gen/EscapeConsts.v.
    Definitions only; proofs are in EscapeEncFacts.v.                                            *)
-From CssV Require Import Base Regex Gen.TokTables Tokenizer Gen.EscapeConsts.
+From CssV Require Import Base Regex Gen.TokTables Tokenizer Gen.EscapeConsts Gen.Quote.
 
 (* ---- hex(n): Python's lower-case digits, most significant first ------------------------- *)
 Definition hexdigit (upper : bool) (d : N) : N :=
@@ -81,7 +81,7 @@ Inductive rule :=
 | Charset (e : str)          (* CSSCharsetRule with a well-formed encoding name *)
 | Other (text : str).        (* any other rule, by its (non-empty) cssText       *)
 
-Definition py_string (v : str) : str := string_quote ++ v ++ string_quote.   (* helper.string on a name without specials *)
+Definition py_string (v : str) : str := hstring v.   (* helper.string: C03's regenerated Gen/Quote.v (translate/quote.py) *)
 Definition rule_text (r : rule) : str :=
   match r with
   | Charset e => charset_fmt_pre ++ py_string e ++ charset_fmt_post
